@@ -417,7 +417,8 @@ Definition mem_write (c : cfg) (g : gst) (i : N) (s : sentry) (known : bool) (to
         (setM g (set_data m1 (s_v s) (s_len s)), s_with_m s MWr)
       else (g, s_with_m s MDone)
     else (g, s_with_m s MDone)
-  | MWr => (setM g (set_data (M g) (s_v s) (s_len s)), s)
+  | MWr => if e_writing (M g)     (* map->writeableEntry(index) asserts writing() *)
+           then (setM g (set_data (M g) (s_v s) (s_len s)), s) else (g, s)
   | _ => (g, s)
   end.
 
@@ -498,7 +499,9 @@ Definition do_end (c : cfg) (g : gst) (v : N) (cut : bool) : gst :=
         let s1 := s_with_data s v true (s_len s) Ok false in
         (* MemStore::write -> completeWriting: closeForWriting; then storeWriterDone *)
         let '(g1, s2) := match s_m s1 with
-                         | MWr => (setM g (closeForWriting (set_data (M g) v (s_len s1))), s_with_m s1 MDone)
+                         | MWr => if e_writing (M g)
+                                  then (setM g (closeForWriting (set_data (M g) v (s_len s1))), s_with_m s1 MDone)
+                                  else (g, s_with_m s1 MDone)
                          | MUndecided => let '(ga, sa) := mem_write c g i s1 (p_known p) (p_total p) in
                                          (match s_m sa with
                                           | MWr => (setM ga (closeForWriting (M ga)), s_with_m sa MDone)
